@@ -50,6 +50,7 @@ func (e *SyntaxError) Error() string {
 }
 
 func (e *SyntaxError) queryError() string {
+	simYield("error.render")
 	ret := outputQueryAndErrPos(e.Query, e.Pos, e.Padding)
 	pad := generatePads(e.Padding)
 	ret += fmt.Sprintf("%sSyntax Error: %s", pad, e.Message)
@@ -95,6 +96,7 @@ func (e *ExecuteError) simpleError() string {
 }
 
 func (e *ExecuteError) queryError() string {
+	simYield("error.render")
 	ret := outputQueryAndErrPos(e.Query, e.Pos, e.Padding)
 	pad := generatePads(e.Padding)
 	ret += fmt.Sprintf("%sExecute Error: %s", pad, e.Message)
